@@ -379,7 +379,7 @@ def _menus():
     from jumanji.environments.routing.connector import generator as cng
     for g, a, t, gen in ((5, 2, 7, "rw"), (4, 1, 3, "uni"), (6, 3, 50, "rw"), (10, 10, 50, "rw"),
                          (6, 3, 2, "uni"), (5, 2, 1, "uni"), (10, 10, 50, "uni"), (8, 4, 50, "rw"),
-                         (12, 48, 50, "rw"), (12, 60, 30, "uni")):
+                         (12, 48, 50, "rw"), (12, 60, 30, "uni"), (6, 5, 30, "uni")):
         add("Connector", f"g{g}a{a}t{t}{gen}",
             lambda g=g, a=a, t=t, gen=gen, time_limit=None, **k: E.Connector(
                 generator=(cng.RandomWalkGenerator if gen == "rw" else cng.UniformRandomGenerator)(
@@ -594,7 +594,7 @@ QUICK = {
     "RubiksCube": ["n2s1t3", "n3s7t7"], "SlidingTilePuzzle": ["g3m50t7d", "g2m1t3s", "g12m300t60d"],
     "Sudoku": ["veryeasy", "dummy", "veryeasy_u8"], "BinPack": ["r10e20s2", "r5e10s1o6", "r10e30o8huge"], "FlatPack": ["r2c3b", "r3c2c"],
     "JobShop": ["j3m2o3d2", "j5m4o4d4", "j40m4o3d4", "j130m3o2d3"], "Knapsack": ["n10s", "n50d", "q8d", "n130d"], "Tetris": ["r6c5t400", "r10c10t400"],
-    "Cleaner": ["r3c7a1t7", "r5c11a2tNone", "r3c3a2tNone", "r4c6a2t12p0", "r13c13a3tNone"], "Connector": ["g5a2t7rw", "g6a3t50rw", "g5a2t12rwc20s0", "g12a48t50rw"],
+    "Cleaner": ["r3c7a1t7", "r5c11a2tNone", "r3c3a2tNone", "r4c6a2t12p0", "r13c13a3tNone"], "Connector": ["g5a2t7rw", "g6a3t50rw", "g5a2t12rwc20s0", "g12a48t50rw", "g6a5t30uni"],
     "CVRP": ["n5s", "n20d", "zb6d", "n130d"], "LevelBasedForaging": ["g6a2f2v2l2cVNp0t100", "g8a3f3v3l3nGRp5t100", "g7a2f3v7l2nGRp0t40", "g5a3f1v5l2nVNp0t40", "g8a3f3v5l2nVNp0t40"],
     "Maze": ["r4c7tNone", "r5c5t7", "r13c13tNone"], "MMST": ["n12e18a2k3t7", "n12e18a3k2t30"], "MultiCVRP": ["c6v2d", "c6v3s"],
     "PacMan": ["t40", "small200", "tunnel120", "tall90"], "RobotWarehouse": ["s1x3h3a2r1q2t500", "s1x3h2a1r1q1t7"],
